@@ -1,5 +1,6 @@
 PROPS["C17"] = dict(
-    harnesses=[dict(name="C17", procs_quick=4, procs_thorough=16, timeout=3000)],
+    harnesses=[dict(name="C17", procs_quick=4, procs_thorough=16, timeout=3000,
+                    env={"ASAN_OPTIONS": "detect_leaks=0:abort_on_error=0:allocator_may_return_null=1"})],
     gens=[],
     rule=("NearestNeighbor (dist_t = long long, exact): point sets of size 0…2000 from five metrics — L1 on a 9×9 grid (duplicates, ties), L1 on a 1000² grid, "
           "collinear points (triangle equality everywhere), Chebyshev on a 40² grid, GeodesicExact distance in mm rounded up (lat/lon on a ¼° lattice incl. poles and a "
